@@ -241,6 +241,11 @@ type ExpelSpec struct {
 	End     base.Height
 	// OutsiderSigns adds a sign of outsider 1 (unknown node signed)
 	OutsiderSigns bool
+	// FactOf, when set, is the ID of the spec whose expel facts these
+	// operations carry: the same facts (same fact hashes, what ballot facts
+	// list) under another set of node signs. The fact hash is all that names an
+	// expel in a ballot fact; who signed the operation is not covered by it.
+	FactOf string
 }
 
 func (w *World) Expels(s *ExpelSpec) []base.SuffrageExpelOperation {
@@ -262,7 +267,11 @@ func (w *World) Expels(s *ExpelSpec) []base.SuffrageExpelOperation {
 		} else {
 			addr = w.Members[t].Address()
 		}
-		fact := isaac.NewSuffrageExpelFact(addr, s.Start, s.End, "verif "+s.ID)
+		factID := s.ID
+		if s.FactOf != "" {
+			factID = s.FactOf
+		}
+		fact := isaac.NewSuffrageExpelFact(addr, s.Start, s.End, "verif "+factID)
 		op := isaac.NewSuffrageExpelOperation(fact)
 		for _, j := range s.Signers {
 			if j == t {
@@ -383,6 +392,11 @@ type VPSpec struct {
 	Signers   []base.LocalNode
 	Threshold base.Threshold
 	Tag       string // cache discriminator / description of the hostility
+	// ID, when set, replaces the voteproof's own fresh ID: voteproof IDs are
+	// free strings chosen by whoever builds the voteproof, nothing ties them to
+	// the content (HashBytes does not cover them), so an attacker can replay the
+	// ID of any voteproof it has seen.
+	ID string
 }
 
 func (s VPSpec) key() string {
@@ -390,7 +404,7 @@ func (s VPSpec) key() string {
 	if s.Ex != nil {
 		ex = s.Ex.ID
 	}
-	k := fmt.Sprintf("%s/%s/%s/%s/%s/%s/", s.Stage, s.Point, s.Variant, ex, s.Threshold, s.Tag)
+	k := fmt.Sprintf("%s/%s/%s/%s/%s/%s/id=%s/", s.Stage, s.Point, s.Variant, ex, s.Threshold, s.Tag, s.ID)
 	for _, n := range s.Signers {
 		k += nodeTag(n) + ","
 	}
@@ -433,6 +447,9 @@ func (w *World) Voteproof(s VPSpec) base.Voteproof {
 			}
 			i.SetExpels(expels)
 			i.Finish()
+			if s.ID != "" {
+				i.SetID(s.ID)
+			}
 			vp = i
 		} else {
 			i := isaac.NewINITVoteproof(s.Point)
@@ -441,6 +458,9 @@ func (w *World) Voteproof(s VPSpec) base.Voteproof {
 				i.SetMajority(maj)
 			}
 			i.Finish()
+			if s.ID != "" {
+				i.SetID(s.ID)
+			}
 			vp = i
 		}
 	case base.StageACCEPT:
@@ -463,6 +483,9 @@ func (w *World) Voteproof(s VPSpec) base.Voteproof {
 			a.SetMajority(maj)
 		}
 		a.Finish()
+		if s.ID != "" {
+			a.SetID(s.ID)
+		}
 		vp = a
 	default:
 		panic("unknown stage")
